@@ -95,6 +95,16 @@ def _worker(args):
         case["run_index"] = i
         case["run_seed"] = rs
         res = exec_case(check, case, timeout)
+        if res["outcome"] == "violation" and case.get("faults"):
+            # does the violation need the injected faults?  If it persists fault-free it is reported as such.
+            c2 = dict(case)
+            c2["faults"] = []
+            r2 = exec_case(check, c2, timeout)
+            if r2["outcome"] == "violation":
+                r2["faults"] = res.get("faults")
+                case, res = c2, r2
+            elif not res["signature"].endswith("/after-fault"):
+                res["signature"] += "/after-fault"
         keep_case = res["outcome"] in ("violation", "harness-error") or i < 3
         out.append((i, case if keep_case else None, res))
     return out
@@ -347,8 +357,8 @@ def main(argv=None):
         out_lines.append("  signature: %s  (%d runs; first run index %d; minimised in %d re-runs; fresh replay rc=%d)" % (sig, len(idxs), i, mruns, rc.returncode))
         out_lines.append("  " + str(mres.get("detail"))[:1200])
         exit_code = 1
-    if len(new_violations) > 6:
-        out_lines.append("  ... and %d more violation signatures" % (len(new_violations) - 6))
+    for sig, idxs in new_violations[6:]:
+        out_lines.append("  also: %s (%d runs, first run index %d) %s" % (sig, len(idxs), idxs[0], str(results[idxs[0]].get("detail"))[:300]))
 
     # --- determinism self-test on the first runs, in a fresh interpreter under another hash seed
     selftest = None
